@@ -772,3 +772,193 @@ Proof.
     destruct (step st o) as [[st1 e1]| |]; cbn [bind good] in *; auto.
     specialize (IH st1 G). destruct (run st1 r) as [[st2 e2]| |]; cbn [bind good] in *; auto.
 Qed.
+
+(* ------------------------------------------------------------------ events: never early *)
+Definition ev_ok (e : event) : Prop := match e with ERun _ dl now _ => dl <= now | _ => True end.
+
+Lemma ksplit_all_lt : forall s l a b, ksplit s l = (a, b) -> Forall (fun y => klt y s = true) a.
+Proof.
+  intros s l. induction l as [|y r IH]; intros a b H; cbn [ksplit] in H.
+  - inversion H; constructor.
+  - destruct (klt y s) eqn:L; [|inversion H; constructor].
+    destruct (ksplit s r) as [a' b']. inversion H; subst. constructor; eauto.
+Qed.
+
+Lemma add_in_loop_ev : forall st a st' ev, add_in_loop st a = Ok (st', ev) -> Forall ev_ok ev.
+Proof.
+  intros st a st' ev H. unfold add_in_loop in H.
+  destruct (insert st a) as [[st1 e]| |]; cbn [bind] in H; try discriminate.
+  destruct e.
+  - destruct (deref st1 a); cbn [bind] in H; try discriminate. unfold reset_timerfd in H. inversion H; subst.
+    repeat constructor.
+  - inversion H; constructor.
+Qed.
+
+Lemma cb_step_ev : forall st c st' ev, cb_step st c = Ok (st', ev) -> Forall ev_ok ev.
+Proof.
+  intros st c st' ev H. destruct c as [d|w iv a|a s|w iv a|a s]; cbn [cb_step] in H.
+  - destruct (d <? 0); inversion H; constructor.
+  - destruct (alloc st w iv a) as [[st1 s]| |]; cbn [bind] in H; try discriminate.
+    destruct (add_in_loop st1 a) as [[st2 e]| |] eqn:EA; cbn [bind] in H; try discriminate.
+    inversion H; subst. apply Forall_app. split; [eapply add_in_loop_ev; eauto|repeat constructor].
+  - destruct (cancel_in_loop st a s); cbn [bind] in H; try discriminate. inversion H; constructor.
+  - destruct (alloc st w iv a) as [[st1 s]| |]; cbn [bind] in H; try discriminate. inversion H; repeat constructor.
+  - inversion H; constructor.
+Qed.
+
+Lemma cb_run_ev : forall cs st st' ev, cb_run st cs = Ok (st', ev) -> Forall ev_ok ev.
+Proof.
+  induction cs as [|c r IH]; intros st st' ev H; cbn [cb_run] in H.
+  - inversion H; constructor.
+  - destruct (cb_step st c) as [[st1 e1]| |] eqn:E1; try discriminate.
+    + destruct (cb_run st1 r) as [[st2 e2]| |] eqn:E2; cbn [bind] in H; try discriminate.
+      inversion H; subst. apply Forall_app. split; [eapply cb_step_ev; eauto | eapply IH; eauto].
+    + destruct (cb_run st r) as [[st2 e2]| |] eqn:E2; cbn [bind] in H; try discriminate.
+      inversion H; subst. constructor; [exact I | eapply IH; eauto].
+Qed.
+
+Lemma run_cbs_ev : forall ex st script now st' ev, Forall (fun y => fst y <= now) ex ->
+  run_cbs st ex script now = Ok (st', ev) -> Forall ev_ok ev.
+Proof.
+  induction ex as [|[d a] ex IH]; intros st script now st' ev F H; cbn [run_cbs] in H.
+  - inversion H; constructor.
+  - inversion F; subst. destruct (deref st a); cbn [bind] in H; try discriminate.
+    destruct (cb_run st (hd [] script)) as [[st1 e1]| |] eqn:E1; cbn [bind] in H; try discriminate.
+    destruct (run_cbs st1 ex (tl script) now) as [[st2 e2]| |] eqn:E2; cbn [bind] in H; try discriminate.
+    inversion H; subst. constructor; [cbn; auto|]. apply Forall_app. split; [eapply cb_run_ev; eauto | eapply IH; eauto].
+Qed.
+
+Lemma fire_ev : forall st script st' ev, fire st script = Ok (st', ev) -> Forall ev_ok ev.
+Proof.
+  intros st script st' ev H. unfold fire in H.
+  destruct (assert (sizes_agree (consume st))); cbn [bind] in H; try discriminate.
+  destruct (ksplit (clk st, PTR_MAX) (timers (consume st))) as [ex rest] eqn:KS.
+  destruct (assert _); cbn [bind] in H; try discriminate.
+  destruct (unactivate (consume st) ex (active (consume st))) as [act| |]; cbn [bind] in H; try discriminate.
+  destruct (assert _); cbn [bind] in H; try discriminate.
+  destruct (run_cbs _ ex script (clk st)) as [[st4 evs]| |] eqn:ER; cbn [bind] in H; try discriminate.
+  assert (Fev : Forall ev_ok evs).
+  { eapply run_cbs_ev; [|exact ER]. pose proof (ksplit_all_lt _ _ _ _ KS) as F.
+    eapply Forall_impl; [|exact F]. intros y Hy. apply klt_iff in Hy. cbn [fst snd] in Hy. lia. }
+  destruct (reset_loop _ ex (clk st)) as [st6| |]; cbn [bind] in H; try discriminate.
+  destruct (timers st6) as [|[dq aq] r]; [inversion H; subst; auto|].
+  destruct (deref st6 aq) as [o| |]; cbn [bind] in H; try discriminate.
+  destruct (0 <? o_exp o); [|inversion H; subst; auto].
+  unfold reset_timerfd in H. inversion H; subst. apply Forall_app. split; auto. repeat constructor.
+Qed.
+
+Lemma run_functors_ev : forall fs st st' ev, run_functors st fs = Ok (st', ev) -> Forall ev_ok ev.
+Proof.
+  induction fs as [|[a|a s] r IH]; intros st st' ev H; cbn [run_functors] in H.
+  - inversion H; constructor.
+  - destruct (add_in_loop st a) as [[st1 e1]| |] eqn:E1; cbn [bind] in H; try discriminate.
+    destruct (run_functors st1 r) as [[st2 e2]| |] eqn:E2; cbn [bind] in H; try discriminate.
+    inversion H; subst. apply Forall_app. split; [eapply add_in_loop_ev; eauto | eapply IH; eauto].
+  - destruct (cancel_in_loop st a s) as [st1| |]; cbn [bind] in H; try discriminate. eapply IH; eauto.
+Qed.
+
+Lemma run_ev : forall ops st st' ev, run st ops = Ok (st', ev) -> Forall ev_ok ev.
+Proof.
+  induction ops as [|o r IH]; intros st st' ev H; cbn [run] in H.
+  - inversion H; constructor.
+  - destruct (step st o) as [[st1 e1]| |] eqn:E1; cbn [bind] in H; try discriminate.
+    destruct (run st1 r) as [[st2 e2]| |] eqn:E2; cbn [bind] in H; try discriminate.
+    inversion H; subst. apply Forall_app. split; [|eapply IH; eauto].
+    destruct o as [c|script|]; cbn [step] in E1;
+      [eapply cb_step_ev | eapply fire_ev | eapply run_functors_ev]; eauto.
+Qed.
+
+(* ------------------------------------------------------------------ theorems in final form *)
+Lemma never_early : forall c ops st evs, run (init c) ops = Ok (st, evs) ->
+  forall s dl now t, In (ERun s dl now t) evs -> dl <= now.
+Proof.
+  intros c ops st evs H s dl now t HI. pose proof (run_ev _ _ _ _ H) as F.
+  rewrite Forall_forall in F. exact (F _ HI).
+Qed.
+
+Lemma reach_top : forall c ops st evs, run (init c) ops = Ok (st, evs) -> Top st.
+Proof.
+  intros c ops st evs H. pose proof (run_good ops (init c) (Top_init c)) as G. rewrite H in G. exact G.
+Qed.
+
+Lemma no_fault : forall c ops, run (init c) ops <> Fault.
+Proof. intros c ops. eapply good_nofault. apply run_good. apply Top_init. Qed.
+
+Lemma destroy_loop_good : forall ts h act n, InvC h ts act n -> destroy_loop h ts = Ok (length ts).
+Proof.
+  induction ts as [|[d a] ts IH]; intros h act n I; cbn [destroy_loop length]; auto.
+  destruct (inv_pop _ _ _ _ _ _ I) as (o & act1 & G & _ & _ & I1 & ND). rewrite G.
+  rewrite (IH (hdel a h) act1 n); auto. apply inv_hdel_det; auto.
+Qed.
+
+Lemma destroy_ok : forall c ops st evs, run (init c) ops = Ok (st, evs) -> destroy st = Ok (length (timers st)).
+Proof.
+  intros c ops st evs H. destruct (reach_top _ _ _ _ H) as (I & _). eapply destroy_loop_good; eauto.
+Qed.
+
+Lemma sets_agree : forall c ops st evs, run (init c) ops = Ok (st, evs) ->
+  length (timers st) = length (active st) /\ NoDup (timers st) /\ NoDup (active st) /\
+  (forall a s, In (a, s) (active st) <->
+               exists o, hget a (heap st) = Some o /\ o_seq o = s /\ In (o_exp o, a) (timers st)) /\
+  (forall d a, In (d, a) (timers st) ->
+               exists o, hget a (heap st) = Some o /\ o_exp o = d /\ In (a, o_seq o) (active st)).
+Proof.
+  intros c ops st evs H. destruct (reach_top _ _ _ _ H) as (I & _). destruct I. splits; auto.
+  - apply Srt_NoDup; auto.
+  - apply Srt_NoDup; auto.
+  - intros a s. split; [apply i_at0|]. intros (o & G & Es & HT).
+    destruct (i_ta0 _ _ HT) as (o' & G' & _ & HA). rewrite G in G'. inversion G'; subst. auto.
+Qed.
+
+Lemma armed_for_earliest : forall c ops st evs, run (init c) ops = Ok (st, evs) ->
+  forall d a r, timers st = (d, a) :: r ->
+  (forall k, In k (timers st) -> d <= fst k) /\
+  exists x, armed st = Some x /\ x <= Z.max d (arm_at st + TimerQueue_floor_val).
+Proof.
+  intros c ops st evs H d a r E. destruct (reach_top _ _ _ _ H) as (I & _ & _ & A). split.
+  - intros k Hk. rewrite E in Hk. eapply Srt_head_le; eauto. rewrite <- E. apply (i_st _ _ _ _ I).
+  - apply A. rewrite E. reflexivity.
+Qed.
+
+Lemma seq_unique : forall c ops st evs, run (init c) ops = Ok (st, evs) ->
+  (forall a b o p, hget a (heap st) = Some o -> hget b (heap st) = Some p -> o_seq o = o_seq p -> a = b) /\
+  (forall a o, hget a (heap st) = Some o -> 0 < o_seq o <= next_seq st).
+Proof.
+  intros c ops st evs H. destruct (reach_top _ _ _ _ H) as (I & _). destruct I. split; auto.
+  intros a o G. apply i_hp0 in G. tauto.
+Qed.
+
+(* a cancel whose (address, sequence) pair names no live Timer object is the identity, whatever
+   lives at that address now *)
+Lemma stale_cancel_noop : forall c ops st evs a s, run (init c) ops = Ok (st, evs) ->
+  (forall o, hget a (heap st) = Some o -> o_seq o <> s) ->
+  step st (Cb (CCancel a s)) = Ok (st, []).
+Proof.
+  intros c ops st evs a s H NS. destruct (reach_top _ _ _ _ H) as (I & _ & C & _).
+  cbn [step cb_step]. unfold cancel_in_loop. rewrite (sizes_agree_inv _ I). cbn [assert bind].
+  destruct (kmem (a, s) (active st)) eqn:KM.
+  - apply kmem_iff in KM. destruct (i_at _ _ _ _ I _ _ KM) as (o & G & Es & _). exfalso. eapply NS; eauto.
+  - rewrite C. reflexivity.
+Qed.
+
+(* cancelling a registered, not yet expired timer erases it from both sets and frees it; no live
+   object carries its sequence number afterwards *)
+Lemma cancel_active : forall c ops st evs a s, run (init c) ops = Ok (st, evs) -> In (a, s) (active st) ->
+  exists st', step st (Cb (CCancel a s)) = Ok (st', []) /\ gone st' s /\ ~ In (a, s) (active st') /\
+    (forall d, ~ In (d, a) (timers st')) /\ hget a (heap st') = None.
+Proof.
+  intros c ops st evs a s H HA. destruct (reach_top _ _ _ _ H) as (I & _ & C & _).
+  cbn [step cb_step]. unfold cancel_in_loop. rewrite (sizes_agree_inv _ I). cbn [assert bind].
+  pose proof HA as KM. apply kmem_iff in KM. rewrite KM.
+  destruct (inv_erase _ _ _ _ _ _ I HA) as (o & t' & a' & G & K1 & K2 & I' & M & HT).
+  unfold deref. rewrite G. cbn [bind]. rewrite K1, K2. cbn [bind]. eexists. split; [reflexivity|].
+  destruct (i_at _ _ _ _ I _ _ HA) as (o2 & G2 & Es & _). rewrite G in G2. inversion G2; subst o2.
+  cbn. splits.
+  - unfold gone, gonec. cbn. split; [apply (i_hp _ _ _ _ I) in G; lia|]. intros b p Gb Eq.
+    destruct (Z.eq_dec a b) as [->|N]; [rewrite hget_hdel_same in Gb; discriminate|].
+    rewrite hget_hdel_other in Gb by auto. apply N. eapply (i_sq _ _ _ _ I); eauto. congruence.
+  - pose proof (kerase_spec (a, s) (active st) (i_sa _ _ _ _ I)) as K. rewrite K2 in K.
+    destruct K as (_ & Ma & _). intros HI. apply Ma in HI. tauto.
+  - intros d HI. destruct (i_ta _ _ _ _ I' _ _ HI) as (o3 & G3 & _). rewrite hget_hdel_same in G3. discriminate.
+  - apply hget_hdel_same.
+Qed.
